@@ -637,7 +637,7 @@ def run(ctx):
         npool = len(cap_pool())
         hists = [json.loads(json.dumps(h)) for h in CORPUS]
         lens = [4, 12, 30] if ctx.tier != "thorough" else [4, 12, 30, 30, 80]
-        for _ in range(ctx.budget(70, 1500)):
+        for _ in range(ctx.budget(50, 500)):
             hists.append(gen_history(ctx.rng, ctx.rng.choice(lens), npool))
     lines, impls = [], []
     with grid.Runtime(seed=ctx.seed, policy="random") as rt:
